@@ -53,6 +53,8 @@ type scenario struct {
 	crash1   int    // phase A: the target dies after this many requests (-1: none)
 	root     bool   // the namespace holds a root position (a completed full sync) before the first unit
 	failover bool   // the source reports a new id (idB, previous idA) from the operation on
+	gap      bool   // frontier modes: the journal record of the lowest sequence number is missing (its lane had not committed when
+	// the link stopped - on a cluster target lanes complete out of order; spec/BisyncFrontier.tla, bisyncdrv -cluster)
 	resync   int    // > 0: after the first units a second full sync (same id) completed at the end of this unit
 	start    int64
 	units    []unit
@@ -427,6 +429,40 @@ func compact(lay map[string]interface{}) string {
 	return b.String()
 }
 
+// dropFirstJournalRecord removes the journal record with the lowest sequence number (record and index member) when the
+// namespace holds at least two records and no frontier snapshot: the state a stop leaves when the first lane had not committed
+func (rn *runner) dropFirstJournalRecord() {
+	cli, err := client.NewRedis(rn.cfg())
+	if err != nil {
+		hx.Fatal("%v", err)
+	}
+	defer func() { cli.Close(); rn.waitNoConns() }()
+	nm, _, err := checkpoint.GetCheckpointHash(cli, []string{idA, idNone})
+	if err != nil || nm == "" {
+		return
+	}
+	if v := rn.srv.Get(0, checkpoint.BisyncFrontierKey(nm)); v != nil {
+		return
+	}
+	idx := checkpoint.BisyncCommitIndexKey(nm, checkpoint.BisyncSlotTag(0))
+	z := rn.srv.Get(0, idx)
+	if z == nil || len(z.ZSet) < 2 {
+		return
+	}
+	first, best := "", 0.0
+	for m, sc := range z.ZSet {
+		if first == "" || sc < best {
+			first, best = m, sc
+		}
+	}
+	if _, err := cli.Do("del", first); err != nil {
+		hx.Fatal("%v", err)
+	}
+	if _, err := cli.Do("zrem", idx, first); err != nil {
+		hx.Fatal("%v", err)
+	}
+}
+
 // ownMode: the mode marker of the namespace the index points to (the mode a refused start leaves the operator to go back to)
 func (rn *runner) ownMode(ids []string, dflt string) string {
 	cli, err := client.NewRedis(rn.cfg())
@@ -461,6 +497,7 @@ func genScenario(r *hx.Rng, id int) *scenario {
 	if r.Chance(20) {
 		sc.resync = sc.upto + r.Intn(sc.n-sc.upto+1)
 	}
+	sc.gap = sc.m1 != "sync" && sc.upto >= 2 && r.Chance(35)
 	off := sc.start
 	add := func(args ...[]byte) {
 		b := hx.EncodeCmd(args...)
@@ -565,6 +602,9 @@ func runScenario(sc *scenario, r *hx.Rng, tr *hx.Trace, stride int) (cases int, 
 		cli.Close()
 		rn.waitNoConns()
 	}
+	if sc.gap {
+		rn.dropFirstJournalRecord()
+	}
 	s0 := srv.SnapshotDBs()
 	lay := rn.layout()
 	committed := rn.committedPrefix()
@@ -595,7 +635,7 @@ func runScenario(sc *scenario, r *hx.Rng, tr *hx.Trace, stride int) (cases int, 
 			"k": k, "total": total, "before": before, "after": after, "final": final, "reported": "cur", "failover": sc.failover,
 			"lay": lay, "act": active(layAfter, ids), "committed": committed, "committedu": rn.unitOf(int64(committed)), "n": sc.n, "upto": sc.upto, "lost": lost,
 			"beforeu": rn.unitOf(int64(before.Off)), "afteru": rn.unitOf(int64(after.Off)),
-			"state": compact(lay), "datadbs": "0", "crash1": sc.crash1, "root": sc.root, "resync": sc.resync})
+			"state": compact(lay), "datadbs": "0", "crash1": sc.crash1, "root": sc.root, "resync": sc.resync, "gap": sc.gap})
 	}
 	// go on from the uninterrupted start-up to the end of the stream, then one more start
 	finish := func(after resume, mode string) (resume, []int) {
